@@ -18,6 +18,10 @@
 
 #include "singleexecutor.h"
 
+#ifdef DANMAR_CPPCHECK_VERIF
+#include "verifhook.hpp"
+#endif
+
 #include "cppcheck.h"
 #include "filesettings.h"
 #include "settings.h"
@@ -51,6 +55,9 @@ unsigned int SingleExecutor::check()
 
     for (auto i = mFiles.cbegin(); i != mFiles.cend(); ++i) {
         result += mCppcheck.check(*i);
+#ifdef DANMAR_CPPCHECK_VERIF
+        verifhook::crashPoint("filedone");
+#endif
         processedsize += i->size();
         ++c;
         if (!mSettings.quiet)
